@@ -107,38 +107,64 @@ theorem mergeLongEdges_geom (g g' : G) (routes : List (Nat × List Nat)) (h : me
 
 theorem setPts_geom (g : G) (e : Nat) (p : List Pt) : GeomEq g (setPts g e p) := geomEq_modEdge _ _ _
 
+/-- what one routing step does: it only writes the points of the routed edge -/
+theorem straightStep_is_setPts (g g1 : G) (r : Nat × List Nat) (h : straightStep g r = .ok g1) :
+    g1 = setPts g r.1 (straight g r.2.head! r.2.getLast!) := by
+  unfold straightStep at h
+  simp only [bind, Except.bind, pure, Except.pure] at h
+  split at h
+  · cases h
+  · simp only [Except.ok.injEq] at h; exact h.symm
+
+theorem polylineStep_is_setPts (g g1 : G) (r : Nat × List Nat) (h : polylineStep g r = .ok g1) :
+    ∃ p : List Pt, g1 = setPts g r.1 p ∧
+      (p = straight g r.2.head! r.2.getLast! ∨
+       ∃ mids, (r.2.tail.dropLast).mapM (nonTerminalPoint g) = .ok mids ∧
+         p = (g.edge r.1).pts ++ [startPoint g r.2.head!] ++ mids ++ [endPoint g r.2.getLast!]) := by
+  unfold polylineStep at h
+  split at h
+  · cases h
+  · split at h
+    · simp only [pure, Except.pure, Except.ok.injEq] at h; exact ⟨_, h.symm, Or.inl rfl⟩
+    · simp only [bind, Except.bind] at h
+      cases hm : (r.2.tail.dropLast).mapM (nonTerminalPoint g) with
+      | error e => rw [hm] at h; cases h
+      | ok mids =>
+        rw [hm] at h
+        simp only [pure, Except.pure, Except.ok.injEq] at h
+        exact ⟨_, h.symm, Or.inr ⟨mids, rfl, rfl⟩⟩
+
+theorem orthoStep_is_setPts (ls : Rat) (g g1 : G) (r : Nat × List Nat) (h : orthoStep ls g r = .ok g1) :
+    ∃ p : List Pt, g1 = setPts g r.1 p ∧
+      (p = straight g r.2.head! r.2.getLast! ∨
+       p = (g.edge r.1).pts ++ orthoPoints g ls (layerH g (g.layerOf (g.edge r.1).src)) r.2) := by
+  unfold orthoStep at h
+  simp only at h
+  split at h
+  · cases h
+  · split at h
+    · simp only [pure, Except.pure, Except.ok.injEq] at h; exact ⟨_, h.symm, Or.inl rfl⟩
+    · simp only [pure, Except.pure, Except.ok.injEq] at h; exact ⟨_, h.symm, Or.inr rfl⟩
+
 theorem routeStraight_geom (g g' : G) (routes : List (Nat × List Nat)) (h : routeStraight g routes = .ok g') : GeomEq g g' := by
   unfold routeStraight at h
   refine foldlM_inv GeomEq GeomEq.refl (fun _ _ _ => GeomEq.trans) _ ?_ routes g g' h
   intro s x s' hs
-  simp only [bind, Except.bind] at hs
-  split at hs
-  · cases hs
-  · simp only [pure, Except.pure, Except.ok.injEq] at hs; subst hs; exact setPts_geom _ _ _
+  rw [straightStep_is_setPts s s' x hs]; exact setPts_geom _ _ _
 
 theorem routePolyline_geom (g g' : G) (routes : List (Nat × List Nat)) (h : routePolyline g routes = .ok g') : GeomEq g g' := by
   unfold routePolyline at h
   refine foldlM_inv GeomEq GeomEq.refl (fun _ _ _ => GeomEq.trans) _ ?_ routes g g' h
   intro s x s' hs
-  simp only [bind, Except.bind] at hs
-  split at hs
-  · cases hs
-  · split at hs
-    · simp only [pure, Except.pure, Except.ok.injEq] at hs; subst hs; exact setPts_geom _ _ _
-    · split at hs
-      · cases hs
-      · simp only [pure, Except.pure, Except.ok.injEq] at hs; subst hs; exact setPts_geom _ _ _
+  obtain ⟨p, hp, _⟩ := polylineStep_is_setPts s s' x hs
+  rw [hp]; exact setPts_geom _ _ _
 
 theorem routeOrtho_geom (ls : Rat) (g g' : G) (routes : List (Nat × List Nat)) (h : routeOrtho ls g routes = .ok g') : GeomEq g g' := by
   unfold routeOrtho at h
   refine foldlM_inv GeomEq GeomEq.refl (fun _ _ _ => GeomEq.trans) _ ?_ routes g g' h
   intro s x s' hs
-  simp only [bind, Except.bind] at hs
-  split at hs
-  · cases hs
-  · split at hs
-    · simp only [pure, Except.pure, Except.ok.injEq] at hs; subst hs; exact setPts_geom _ _ _
-    · simp only [pure, Except.pure, Except.ok.injEq] at hs; subst hs; exact setPts_geom _ _ _
+  obtain ⟨p, hp, _⟩ := orthoStep_is_setPts ls s s' x hs
+  rw [hp]; exact setPts_geom _ _ _
 
 /-- phase 5 never changes node geometry or layer lists -/
 theorem phase5_geom (alg : Nat) (ls : Rat) (g g' : G) (h : phase5 alg ls g = .ok g') : GeomEq g g' := by
